@@ -16,54 +16,83 @@
 (*                  prefix of a complete one and is executed with it).     *)
 (*                  `c` = [mtls |-> b]: the scripts run with (b) or        *)
 (*                  without mutual TLS.                                    *)
-(* On every state TLC checks Undisturbed and Fresh.                        *)
+(* kind = "real":   the same machine, for the runs through the real server *)
+(*                  entry point (server_main + SIGUSR1): a connection is   *)
+(*                  ConnectAs(cc) for every cc of ClientCerts (the client  *)
+(*                  certificate under the configured CA, none, one of      *)
+(*                  another CA), so that a handshake is also a PROBE of    *)
+(*                  the server's client authentication before and after    *)
+(*                  every reload.  hist[i].conn is the number the          *)
+(*                  connection gets if the property admits it, 0 if the    *)
+(*                  handshake must be refused.  Bounds RMaxConn /          *)
+(*                  RMaxReload / RMaxUse; a script is complete when all    *)
+(*                  connections and reloads happened and either all uses   *)
+(*                  did or no connection was admitted (nothing to use);    *)
+(*                  printed as <<"RSCRIPT", json>>.                        *)
+(* On every state TLC checks Undisturbed, Fresh, ConfigKept and            *)
+(* Authenticated.                                                          *)
 (***************************************************************************)
 EXTENDS TlsAuth, TLC, Json
 
-CONSTANTS MaxConn, MaxReload, MaxUse, Mtls
+CONSTANTS MaxConn, MaxReload, MaxUse, Mtls,
+          RMaxConn, RMaxReload, RMaxUse, RealMtls
 
 VARIABLES kind, c, hist, obs
 
-vars == <<kind, c, hist, obs, identityVersion, live, conns>>
+vars == <<kind, c, hist, obs, identityVersion, live, conns, wantCA, liveCA>>
 
 Count(op) == Cardinality({i \in DOMAIN hist : hist[i].op = op})
 
+Bound(op) ==
+  IF kind = "real"
+  THEN CASE op = "connect" -> RMaxConn [] op = "reload" -> RMaxReload [] OTHER -> RMaxUse
+  ELSE CASE op = "connect" -> MaxConn [] op = "reload" -> MaxReload [] OTHER -> MaxUse
+
 Init ==
-  /\ MInit
   /\ hist = <<>> /\ obs = <<>>
-  /\ \/ kind = "case" /\ c \in Cases
-     \/ kind = "script" /\ c \in [mtls : Mtls]
+  /\ \/ kind = "case" /\ c \in Cases /\ MInitWith(c.serverClientCA)
+     \/ kind = "script" /\ c \in [mtls : Mtls] /\ MInitWith(CAOf(c.mtls))
+     \/ kind = "real" /\ c \in [mtls : RealMtls] /\ MInitWith(CAOf(c.mtls))
 
 DoConnect ==
-  /\ Count("connect") < MaxConn
+  /\ Count("connect") < Bound("connect")
   /\ Connect
   /\ hist' = Append(hist, [op |-> "connect", conn |-> Len(conns) + 1])
   /\ obs' = Append(obs, live)
 
+\* real-server mode: the client presents cc; obs = what the property demands of this handshake
+DoConnectAs(cc) ==
+  /\ Count("connect") < Bound("connect")
+  /\ ConnectAs(cc)
+  /\ hist' = Append(hist, [op |-> "connect", conn |-> IF Admitted(cc) THEN Len(conns) + 1 ELSE 0, cc |-> cc])
+  /\ obs' = Append(obs, [outcome |-> HandshakeOutcome(cc), identity |-> live])
+
 DoReload ==
-  /\ Count("reload") < MaxReload
+  /\ Count("reload") < Bound("reload")
   /\ Reload
   /\ hist' = Append(hist, [op |-> "reload", conn |-> 0])
   /\ obs' = Append(obs, identityVersion + 1)
 
 DoUse(x) ==
-  /\ Count("use") < MaxUse
+  /\ Count("use") < Bound("use")
   /\ Use(x)
   /\ hist' = Append(hist, [op |-> "use", conn |-> x])
   /\ obs' = Append(obs, IF Works(x) THEN Sees(x) ELSE 0 - 1)
 
 Next ==
-  /\ kind = "script"
   /\ UNCHANGED <<kind, c>>
-  /\ DoConnect \/ DoReload \/ \E x \in DOMAIN conns : DoUse(x)
+  /\ \/ kind = "script" /\ (DoConnect \/ DoReload \/ \E x \in DOMAIN conns : DoUse(x))
+     \/ kind = "real" /\ ((\E cc \in ClientCerts : DoConnectAs(cc)) \/ DoReload \/ \E x \in DOMAIN conns : DoUse(x))
 
 Spec == Init /\ [][Next]_vars
 
-Complete == Count("connect") = MaxConn /\ Count("reload") = MaxReload /\ Count("use") = MaxUse
+Complete ==
+  /\ Count("connect") = Bound("connect") /\ Count("reload") = Bound("reload")
+  /\ Count("use") = Bound("use") \/ (kind = "real" /\ conns = <<>>)
 
 TypeOK ==
   /\ MTypeOK
-  /\ kind \in {"case", "script"}
+  /\ kind \in {"case", "script", "real"}
   /\ kind = "case" => c \in Cases /\ hist = <<>> /\ Expected(c) \subseteq Outcomes
   /\ Len(obs) = Len(hist)
 
@@ -72,5 +101,7 @@ Emit ==
          PrintT(<<"CASE", ToJson([case |-> c, exp |-> Expected(c), asks |-> ServerAsksForCert(c)])>>)
     [] kind = "script" /\ Complete ->
          PrintT(<<"SCRIPT", ToJson([mtls |-> c.mtls, ops |-> hist, exp |-> obs])>>)
+    [] kind = "real" /\ Complete ->
+         PrintT(<<"RSCRIPT", ToJson([mtls |-> c.mtls, ops |-> hist, exp |-> obs])>>)
     [] OTHER -> TRUE
 =============================================================================
